@@ -174,17 +174,21 @@ pub fn check_code_cfg(code: &[u8], size_limit: Option<usize>, tight: bool) -> Re
     if tight {
         cfg = cfg.with_max_iterations_per_opcode(1).with_max_forks_per_fork_target(1);
     }
-    let vm = match run_vm(code, cfg.clone(), lazy()) {
+    // a poll-every-iteration watchdog counts the iterations of the VM's main loop: an independent witness of how
+    // much the VM explored, which does not depend on which states it chose to keep
+    let counter = crate::obs::CountingWatchdog::new(1, None);
+    let vm = match run_vm(code, cfg.clone(), counter.clone()) {
         VmRun::Ran(o) => o,
         _ => return Ok(None),
     };
-    // performed = executed by the tool AND performed without fault on some EVM path
+    let explored_everything = !tight && crate::c13::ref_vm_work(code, &x) == Some(counter.polls.get());
+    // performed = explored by the tool AND performed without fault on some EVM path
     let mut required: Vec<(u32, U, bool)> = Vec::new();
     for (off, k, is_write) in &accesses {
         let performed_ref = x.paths.iter().any(|p| {
             p.executed.contains(off) && !matches!(&p.halt, Halt::Error(e) if e.offset == *off)
         });
-        if vm.executed.contains(off) && performed_ref && !is_small_slot_hash(*k) {
+        if (vm.executed.contains(off) || explored_everything) && performed_ref && !is_small_slot_hash(*k) {
             required.push((*off, *k, *is_write));
         }
     }
@@ -308,7 +312,8 @@ impl Check for C06 {
              boundary keys (1, 5, 10000, 2^64, 2^64+1, 2^128, 2^255, 2^256-1, the EIP-1967 slot, keccak(\"a\")-1), SLOAD/SSTORE with the \
              operand left on / taken from the stack for two keys, and context tokens (conditional jump to a label, JUMPDEST, STOP, \
              REVERT, POP, CALLVALUE, a mask, DUP1), writes of 3- and 5-node values; sequences <= 3 additionally under value size limits \
-             1..6 (culling at the limit must never remove the witness of an access). Premise from the tool (offset executed in some stored state) and from the reference \
+             1..6 (culling at the limit must never remove the witness of an access). Premise from the tool (offset executed in some stored state, or the VM's main loop made exactly as many iterations as the \
+             reference EVM's path tree has steps) and from the reference \
              EVM (the access does not fault); when permissive analyze() succeeds every such key that is not keccak(n), n < 10000, must \
              be the index of an entry, compared as a 256-bit word. non-trivial = program with at least one required key; distinct by content",
             max_len(tier),
